@@ -244,9 +244,11 @@ def mpi_div(s, t, prec):
         if sas >= 0:
             a = mpf_div(sa, tb, prec, round_floor)
             b = finf
+            if a == fnan: a = fzero
         if sbs <= 0:
             a = fninf
             b = mpf_div(sb, tb, prec, round_ceiling)
+            if b == fnan: b = fzero
     # Division with positive denominator
     # We still have to handle nans resulting from inf/0 or inf/inf
     else:
